@@ -14,7 +14,21 @@ def enumerate_paths(body, limit=4000):
     asserts = [(bb, cond_expr, expected)] passed on the way (dev-profile overflow checks)"""
     out = []
 
-    def rec(bb, seen, decisions, last_def, asserts):
+    def const_assign(s):
+        if s["k"] == "assign" and not s["dst"]["p"]:
+            rv = s["rv"]
+            if rv["k"] == "use" and rv["a"]["k"] == "const":
+                c = rv["a"]["c"]
+                if "bool" in c:
+                    return s["dst"]["l"], int(c["bool"])
+                if "int" in c:
+                    return s["dst"]["l"], c["int"]
+            return s["dst"]["l"], None
+        return None
+
+    def rec(bb, seen, decisions, last_def, asserts, known=None, order=()):
+        known = dict(known or {})
+        order = order + (bb,)
         if len(out) > limit:
             raise NotLoopFree("too many paths")
         if bb in seen:
@@ -24,37 +38,105 @@ def enumerate_paths(body, limit=4000):
         for si, s in enumerate(blk["stmts"]):
             if s["k"] == "assign" and s["dst"]["l"] == 0 and not s["dst"]["p"]:
                 last_def = (bb, si)
+            ca = const_assign(s)
+            if ca is not None:
+                if ca[1] is None:
+                    known.pop(ca[0], None)
+                else:
+                    known[ca[0]] = ca[1]
         t = blk["term"]
         k = t["k"]
         if k == "return":
-            out.append((decisions, last_def, asserts))
+            out.append(PathInfo(decisions, last_def, asserts, order))
             return
         if k == "call":
             if t["dst"]["l"] == 0 and not t["dst"]["p"]:
                 last_def = (bb, "term")
             if t.get("target") is None:
                 return
-            rec(t["target"], seen, decisions, last_def, asserts)
+            if not t["dst"]["p"]:
+                known.pop(t["dst"]["l"], None)
+            rec(t["target"], seen, decisions, last_def, asserts, known, order)
             return
         if k == "switch":
             succs = body.succ(bb)
+            d = t["discr"]
+            if d["k"] in ("move", "copy") and not d["pl"]["p"] and d["pl"]["l"] in known:
+                # drop flags and other path-constant booleans: follow the known arm, record no decision
+                v = known[d["pl"]["l"]]
+                tgt = t["otherwise"]
+                for val, tg in t["arms"]:
+                    if val == v:
+                        tgt = tg
+                rec(tgt, seen, decisions, last_def, asserts, known, order)
+                return
             de = body.switch_discr_expr(bb)
             vals = [v for v, _ in t["arms"]]
             for v, tgt in t["arms"]:
                 if tgt in succs:
-                    rec(tgt, seen, decisions + [(bb, de, v)], last_def, asserts)
+                    rec(tgt, seen, decisions + [(bb, de, v)], last_def, asserts, known, order)
             if t["otherwise"] in succs and body.term(t["otherwise"])["k"] != "unreachable":
-                rec(t["otherwise"], seen, decisions + [(bb, de, ("not", vals))], last_def, asserts)
+                rec(t["otherwise"], seen, decisions + [(bb, de, ("not", vals))], last_def, asserts, known, order)
             return
         if k == "assert":
             rec(t["target"], seen, decisions, last_def,
-                asserts + [(bb, body.operand_expr(t["cond"], bb, "term"), t["expected"])])
+                asserts + [(bb, body.operand_expr(t["cond"], bb, "term"), t["expected"])], known, order)
             return
         for s in body.succ(bb):
-            rec(s, seen, decisions, last_def, asserts)
+            rec(s, seen, decisions, last_def, asserts, known, order)
 
     rec(0, frozenset(), [], None, [])
     return out
+
+
+class PathInfo(tuple):
+    """(decisions, ret_def, asserts) + .blocks = the block sequence of the path"""
+
+    def __new__(cls, decisions, ret_def, asserts, blocks):
+        o = tuple.__new__(cls, (decisions, ret_def, asserts))
+        o.blocks = blocks
+        return o
+
+
+def resolve_phi(body, e, blocks):
+    """rewrite phi nodes by the definition that lies on the given path (latest one), recursively"""
+    pos = {b: i for i, b in enumerate(blocks)}
+
+    def go(x, depth=0):
+        if not isinstance(x, tuple) or not x or depth > 50:
+            return x
+        if x[0] == "phi":
+            best = None
+            for d in x[3]:
+                if d[0] == "entry":
+                    cand = -1
+                elif d[0] == "partial":
+                    continue
+                elif d[0] in pos:
+                    cand = pos[d[0]]
+                else:
+                    continue
+                if best is None or cand > best[0]:
+                    best = (cand, d)
+            if best is None:
+                return x
+            return go(body.def_expr(x[1], best[1]), depth + 1)
+        if x[0] == "call":
+            return ("call", x[1], x[2], tuple(go(a, depth + 1) for a in x[3]), x[4])
+        if x[0] == "agg":
+            return x[:3] + (tuple(go(a, depth + 1) for a in x[3]),) + x[4:]
+        if x[0] == "binop":
+            return ("binop", x[1], go(x[2], depth + 1), go(x[3], depth + 1))
+        if x[0] in ("unop", "cast"):
+            return (x[0], x[1], go(x[2], depth + 1)) + x[3:]
+        if x[0] in ("field", "downcast", "deref", "ref", "discr"):
+            return (x[0], go(x[1], depth + 1)) + x[2:]
+        if x[0] == "index":
+            return ("index", go(x[1], depth + 1), go(x[2], depth + 1))
+        if x[0] == "mut":
+            return ("mut", go(x[1], depth + 1), x[2])
+        return x
+    return go(e)
 
 
 class CannotEval(Exception):
